@@ -16,6 +16,7 @@ Driver for C04.  Requests (ids are `mid:rid`, lists comma separated, `-` = empty
   `docpos.pack <bits> <block> <off>`          -> `ok <pos>`               seq.PackDocPos
   `docpos.unpack <bits> <pos>`                -> `ok <block> <off>`       DocPos.Unpack
   `groupoffsets <bits> <positions>`           -> `ok <block>/<offs +>/<idx +>;...`   seq.GroupDocsOffsets
+  `indexfetch <bits> <positions>`             -> `ok <block>.<off>|-,...`   processor.IndexFetch (documents named by where they are read)
   `extract <block hex> <offsets>`             -> `ok <doc hex>,...`       extractDocsFromBlockFunc
   `filterstats <collector ids> <appended ids>` -> `ok min= max= kept=`   metaDataCollector.Filter
   `groupids <fracs> <ids>`                    -> `ok <name>=<ids>;...` | `panic`     fracmanager.groupIDsByFraction
@@ -129,6 +130,13 @@ def step (line : String) : String :=
   | ["groupoffsets", bits, ps] =>
     match bits.toNat?, natList? ps with
     | some bits, some ps => s!"ok {fmtList fmtGroup (groupDocsOffsets bits ps) ";"}"
+    | _, _ => "bad-op"
+  | ["indexfetch", bits, ps] =>
+    match bits.toNat?, natList? ps with
+    | some bits, some ps =>
+      s!"ok {fmtList (fun (d : Option (Nat × Nat)) => match d with
+        | none => "-"
+        | some t => s!"{t.1}.{t.2}") (indexFetch bits (fun b o => (b, o)) ps)}"
     | _, _ => "bad-op"
   | ["extract", blk, offs] =>
     match hex? blk, natList? offs with
